@@ -303,6 +303,8 @@ Definition cmp_mk (fn : cmpop) : expr -> expr -> expr :=
 
 (* byWithoutFilterCol *)
 Definition bw_filter (col : expr) (labels : list string) (by_ : bool) : expr :=
+  (* by (): no label is kept; `k IN ()` is not valid ClickHouse (repair agg-without-grouping-keeps-streams) *)
+  if by_ && (match labels with [] => true | _ => false end) then Sep "" [Raw "mapFilter((k,v) -> 0, "; col; Raw ")"] else
   Sep "" [Raw "mapFilter((k,v) -> k "; Raw (if by_ then "IN" else "NOT IN"); Raw " ("; Sep "," (map StrV labels); Raw "), "; col; Raw ")"].
 
 (* regexMap of planner_parser_regexp.go; id = sql.Ctx.Id() drawn after the parts are rendered *)
@@ -793,6 +795,24 @@ Definition plan_metric (s : script) (finalize : bool) : option planner :=
   let p1 := PStepFixP (get_duration s) cur in
   let p2 := if negb lji_set && negb lidx_set then PLabelsJoin p1 fp PTimeSeriesInit false else p1 in
   Some (PMainFinalizer p2 true finalize).
+
+(* groupByNothing of logql_transpiler_v2/planner.go, applied by the reader's entry point logql_transpiler_v2.Plan to the AST
+   before either engine plans it: a vector aggregation written without a by/without clause (at top level or as the argument of
+   topk / bottomk) is given the suffix clause `by ()` - it aggregates all its series into ONE series with the empty label set *)
+Definition by_nothing : by_without := {| bw_by := true; bw_labels := [] |}.
+Definition norm_agg (a : aggop) : aggop :=
+  match agg_prefix a, agg_suffix a with
+  | None, None => {| agg_f := agg_f a; agg_prefix := None; agg_lra := agg_lra a; agg_suffix := Some by_nothing; agg_cmp := agg_cmp a |}
+  | _, _ => a
+  end.
+Definition norm_script (s : script) : script :=
+  match s with
+  | SAgg a => SAgg (norm_agg a)
+  | STopK t => match tk_arg t with
+               | TKAgg a => STopK {| tk_top := tk_top t; tk_len := tk_len t; tk_arg := TKAgg (norm_agg a); tk_cmp := tk_cmp t |}
+               | _ => s end
+  | _ => s
+  end.
 
 (* Plan(script, finalize) for any script *)
 Definition plan_script (s : script) (finalize : bool) : option planner :=
